@@ -193,17 +193,37 @@ func runC07(t *testing.T, c *choice.Stream, r *Result, opt RunOpt) {
 		desc["cols"], desc["rows"], desc["compression"] = colNames(cols), rows, method
 		typed, _ := ResultTargets(cols)
 		auto := kind == "block-auto"
+		// the same block twice on one reader (a constant result sent in equal
+		// blocks): whatever the reader keeps from the first must not vouch for
+		// a second one that is cut short
+		twice := len(stream) < 1<<16 && c.Bool("block.twice", 1, 4)
+		if twice {
+			stream = append(append([]byte(nil), stream...), stream...)
+			desc["twice"] = true
+		}
 		dec = func(src *simio.FaultyReader) error {
 			rd := proto.NewReader(src)
 			if compressed {
 				rd.EnableCompression()
 			}
-			var blk proto.Block
-			if auto {
-				var res proto.Results
-				return blk.DecodeBlock(rd, rev, res.Auto())
+			n := 1
+			if twice {
+				n = 2
 			}
-			return blk.DecodeBlock(rd, rev, typed)
+			for i := 0; i < n; i++ {
+				var blk proto.Block
+				var err error
+				if auto {
+					var res proto.Results
+					err = blk.DecodeBlock(rd, rev, res.Auto())
+				} else {
+					err = blk.DecodeBlock(rd, rev, typed)
+				}
+				if err != nil {
+					return err
+				}
+			}
+			return nil
 		}
 	case "column":
 		cs := DrawCols(c, "col", 1, 2)[0]
